@@ -803,3 +803,49 @@ def case_cast_constant_of_shape():
 
 
 CASES["cast_constant_of_shape"] = case_cast_constant_of_shape
+
+
+def case_conv_affine_shapes():
+    import onnx_ir as ir
+    import onnxruntime as ort
+    from onnxscript.rewriter.rules.common import _fuse_conv_affine as R
+
+    def t(name, arr):
+        return numpy_helper.from_array(np.asarray(arr, dtype=np.float32), name)
+
+    def ortrun(m, f):
+        so = ort.SessionOptions()
+        so.log_severity_level = 4
+        return ort.InferenceSession(m.SerializeToString(), so, providers=["CPUExecutionProvider"]).run(None, f)[0]
+    bad = 0
+    for sshape in ([], [1], [1, 1, 1, 1], [1, 1, 1, 1, 1]):
+        for which in ("conv_affine", "affine_conv"):
+            w = t("w", np.arange(2 * 3 * 1 * 2).reshape(2, 3, 1, 2) / 10)
+            inits = [w, t("b", [0.5, -0.5]), t("scale", np.full(sshape, 2.0)), t("offset", np.full(sshape, 0.25))]
+            if which == "conv_affine":
+                nodes = [helper.make_node("Conv", ["x", "w", "b"], ["c"]), helper.make_node("Mul", ["c", "scale"], ["m"]), helper.make_node("Add", ["m", "offset"], ["y"])]
+            else:
+                nodes = [helper.make_node("Mul", ["x", "scale"], ["m"]), helper.make_node("Add", ["m", "offset"], ["a"]), helper.make_node("Conv", ["a", "w", "b"], ["y"], pads=[0, 0, 0, 0])]
+            g = helper.make_graph(nodes, "g", [vi("x", TensorProto.FLOAT, [1, 3, 4, 4])], [vi("y", TensorProto.FLOAT, None)], inits)
+            m = helper.make_model(g, opset_imports=[helper.make_opsetid("", 18)], ir_version=9)
+            f = {"x": np.random.default_rng(0).random((1, 3, 4, 4)).astype(np.float32)}
+            try:
+                a0 = ortrun(m, f)
+            except Exception:  # noqa: BLE001  (the original itself is not a valid model: nothing to preserve)
+                continue
+            mm = ir.serde.deserialize_model(m)
+            rule = R.conv_affine_fusion_rule if which == "conv_affine" else R.affine_conv_fusion_rule
+            n = rule.apply_to_model(mm)
+            try:
+                b0 = ortrun(ir.serde.serialize_model(mm), f)
+                okv = a0.shape == b0.shape and np.allclose(a0, b0, rtol=1e-5, atol=1e-5)
+                msg = f"output {a0.shape} -> {b0.shape}"
+            except Exception as e:  # noqa: BLE001
+                okv, msg = False, "onnxruntime rejects the rewritten model: " + str(e).split("Status Message:")[-1][:120]
+            if not okv:
+                print(f"{which} with scale/offset of shape {sshape}: rule applied {n}x; {msg}")
+                bad += 1
+    return bad
+
+
+CASES["conv_affine_shapes"] = case_conv_affine_shapes
